@@ -543,6 +543,35 @@ static int op_loadseq(const char* hex) {
   return 1;
 }
 
+
+/* GROWRUN <kind a|m|b|s> <n>: n insertions into one fresh indefinite array / map / byte string / text string; prints the final size and
+   capacity, the number of allocator requests the insertions caused, and a digest of the capacity after every insertion */
+static int op_growrun(const char* kind, unsigned long long n) {
+  cbor_item_t* c = NULL; cbor_item_t* x = NULL;
+  switch (kind[0]) {
+    case 'a': c = cbor_new_indefinite_array(); x = cbor_build_uint8(1); break;
+    case 'm': c = cbor_new_indefinite_map(); x = cbor_build_uint8(1); break;
+    case 'b': c = cbor_new_indefinite_bytestring(); x = cbor_build_bytestring((cbor_data)"ab", 2); break;
+    case 's': c = cbor_new_indefinite_string(); x = cbor_build_stringn("ab", 2); break;
+    default: return 0;
+  }
+  if (!c || !x) { printf("setup-failed\n"); return 1; }
+  long before = h_alloc_requests(); uint64_t h = 1469598103934665603ULL; size_t cap = 0, size = 0; int ok = 1;
+  for (unsigned long long i = 0; i < n && ok; i++) {
+    if (kind[0] == 'a') { ok = cbor_array_push(c, x); cap = cbor_array_allocated(c); size = cbor_array_size(c); }
+    else if (kind[0] == 'm') { ok = cbor_map_add(c, (struct cbor_pair){.key = x, .value = x}); cap = cbor_map_allocated(c); size = cbor_map_size(c); }
+    else {
+      ok = kind[0] == 'b' ? cbor_bytestring_add_chunk(c, x) : cbor_string_add_chunk(c, x);
+      struct cbor_indefinite_string_data* d = (struct cbor_indefinite_string_data*)c->data; cap = d->chunk_capacity; size = d->chunk_count;
+    }
+    h = (h ^ (uint64_t)cap) * 1099511628211ULL;
+  }
+  long reqs = h_alloc_requests() - before;
+  printf("%s size=%zu cap=%zu reqs=%ld digest=%016" PRIx64 "\n", ok ? "ok" : "refused", size, cap, reqs, h);
+  cbor_decref(&c); cbor_decref(&x);
+  return 1;
+}
+
 int hist_op(int argc, char** w);
 
 int tree_op(int argc, char** w) {
@@ -563,5 +592,6 @@ int tree_op(int argc, char** w) {
   if (argc == 2 && !strcmp(w[0], "UTF8ITEM")) { extern void op_utf8item(const char*); op_utf8item(w[1]); return 1; }
   if (argc == 3 && !strcmp(w[0], "GROWAT")) return op_growat(w[1], strtoull(w[2], 0, 10));
   if (argc == 2 && !strcmp(w[0], "LOADSEQ")) return op_loadseq(w[1]);
+  if (argc == 3 && !strcmp(w[0], "GROWRUN")) return op_growrun(w[1], strtoull(w[2], 0, 10));
   return hist_op(argc, w);
 }
